@@ -1,3 +1,5 @@
+\* Wider constants; not run by ./check since the Mutate actions were added (more than 15 minutes with 8 workers).
+\* quick runs PurityMC1.cfg (65 k states), thorough PurityMC.cfg (754 k states).
 SPECIFICATION Spec
 CONSTANTS
   Keys = {"k1", "k2", "k3"}
@@ -5,5 +7,5 @@ CONSTANTS
   Results = {"r0", "r1"}
   Mems = {"m1", "m2"}
   Digests = {"d0", "d1"}
-INVARIANTS TypeOK MemoFunctional MemoAgrees SeenIsFirst Sound Complete
+INVARIANTS TypeOK MemoFunctional MemoAgrees SeenIsFirst Sound Complete ObtainedHowIrrelevant
 CHECK_DEADLOCK FALSE
